@@ -980,12 +980,36 @@ func ruleEFF4(w *World) []Ob {
 				if !ok {
 					continue
 				}
+				// the path test moved into a helper of the node: func (n *Node) hasValidPath() bool { return fs.ValidPath(n.path()) }
+				if h := call.Common().StaticCallee(); h != nil && pp.InModule(h) && recvTypeName(h) == "Node" && !pol && len(h.Blocks) > 0 {
+					allInstrs(h, func(in2 ssa.Instruction) {
+						r2, isR := in2.(*ssa.Return)
+						if !isR || len(rr(r2)) != 1 {
+							return
+						}
+						if vc, isC := stripConv(rr(r2)[0]).(*ssa.Call); isC && calleeFullName(vc.Common()) == "io/fs.ValidPath" {
+							if pc, ok := vc.Common().Args[0].(*ssa.Call); ok && pc.Common().StaticCallee() != nil && fname(pc.Common().StaticCallee()) == "path" {
+								validOK = true
+							}
+						}
+					})
+				}
 				switch calleeFullName(call.Common()) {
 				case "strings.ContainsAny", "strings.Contains", "strings.ContainsRune":
 					s, isStr := constString(call.Common().Args[1])
 					if !isStr {
 						if k, isInt := constInt(call.Common().Args[1]); isInt && k == '/' {
 							s = "/"
+						}
+					}
+					if !isStr && calleeFullName(call.Common()) == "strings.ContainsAny" {
+						// "/" + more characters chosen by an option: the set still contains '/'
+						if bo, isB := stripConv(resolve(call.Common().Args[1])).(*ssa.BinOp); isB && bo.Op == token.ADD {
+							for _, part := range []ssa.Value{bo.X, bo.Y} {
+								if cs, isC := constString(part); isC && strings.Contains(cs, "/") {
+									s = cs
+								}
+							}
 						}
 					}
 					_, f, isField := fieldOfLoad(call.Common().Args[0])
